@@ -1,6 +1,7 @@
 """C13 -- no named semaphore or tracked resource outlives its process tree."""
 from ..rules import sync as S
 from ..rules import tracker as T
+from ..rules import process as Pr
 
 EXPLANATION = (
     "Static analysis. Decides: in SemLock.__init__ every path that creates the C semaphore reaches the registration with "
@@ -9,7 +10,8 @@ EXPLANATION = (
     "registers, unlinks nor installs a finaliser; every primitive (Lock, RLock, Semaphore, BoundedSemaphore, Condition's "
     "three semaphores and lock, Event) is built through SemLock.__init__ (R-SEM-LIFE); the loky context's factories "
     "return loky's own classes (R-CTX-FACTORY); the tracker's end-of-life sweep cleans every remaining name of every type "
-    "(R-RT-LOOP) with the exact refcount table (R-RT-TABLE). Not decided: the kernel's semaphore namespace itself."
+    "(R-RT-LOOP) with the exact refcount table (R-RT-TABLE); the tracker is started under the module name of this copy, "
+    "so a vendored loky still has one (R-VENDOR). Not decided: the kernel's semaphore namespace itself."
 )
 
 
@@ -21,4 +23,5 @@ def run(e, R, tier):
         T.r_rt_sweep,
         T.r_rt_table,
         T.r_rt_proto,
+        Pr.r_vendor,
     ])
